@@ -141,6 +141,19 @@ func (sc *fatScen) scenario(memo *acceptMemo) explore.Scenario {
 				}
 				if opErr != nil && verr == nil {
 					s.resync(live, targets...)
+					// FAT only (C01 speaks of reading back "through the same handle" and of refused calls; C04 does not)
+					if rv := s.shRefused; rv != nil && sc.Cfg.Type != 4 {
+						if n := s.model.get(rv.path); n != nil && !n.Dir {
+							switch {
+							case rv.err != nil:
+								add(explore.Viol{Sig: "same-handle|after-refused|read-error", Msg: fmt.Sprintf("%s after %s: the handle whose Write was refused cannot be read back: %v", sc.Cfg, after, rv.err)})
+							case string(rv.data) != string(n.Data):
+								add(explore.Viol{Sig: "same-handle|after-refused|content", Msg: fmt.Sprintf("%s after %s: the handle whose Write was refused shows %d bytes, a fresh handle on the same file shows %d (first difference at %d)", sc.Cfg, after, len(rv.data), len(n.Data), firstDiff(rv.data, n.Data))})
+							case rv.size >= 0 && rv.size != int64(len(n.Data)):
+								add(explore.Viol{Sig: "same-handle|after-refused|size", Msg: fmt.Sprintf("%s after %s: the handle whose Write was refused reports size %d, the file has %d bytes", sc.Cfg, after, rv.size, len(n.Data))})
+							}
+						}
+					}
 				}
 			}
 		}
@@ -214,6 +227,15 @@ func (sc *fatScen) hn(h []uint16) []string {
 	return o
 }
 
+func firstDiff(a, b []byte) int {
+	for i := 0; i < len(a) && i < len(b); i++ {
+		if a[i] != b[i] {
+			return i
+		}
+	}
+	return min(len(a), len(b))
+}
+
 func kindDetail(op fsOp) string {
 	switch op.Kind {
 	case "write":
@@ -241,6 +263,23 @@ func fatScenarios(cfg fatCfg, oracle string, depth int, quick bool) []*fatScen {
 	}
 	ln = append(ln, fsOp{Kind: "reopen"})
 	out = append(out, &fatScen{Name: "names", Cfg: cfg, Letters: ln, Depth: depth, Oracle: oracle})
+
+	// names2: pairs that differ only beyond the third extension character, at the 8/9-character stem boundary, by
+	// inner dots, and a case variant (a generated alias such as ABCDEF~1.TXT is deliberately not used as an explicit name:
+	// in VFAT the alias is a second valid name of the same file)
+	names2 := []string{"page.html", "page.htm", "abcdefgh.txt", "abcdefghi.txt", "ABCDEFGH.TXT", "a.b.c", "ab.c", "NOTES.TXT2"}
+	var ln2 []fsOp
+	for _, n := range names2 {
+		ln2 = append(ln2, fsOp{Kind: "create", Path: n})
+	}
+	ln2 = append(ln2, W("page.htm", "0", "5"), W("abcdefghi.txt", "0", "7"), W("ABCDEFGH.TXT", "0", "9"), W("ab.c", "0", "11"), W("NOTES.TXT", "0", "3"))
+	ln2 = append(ln2, fsOp{Kind: "rename", Path: "page.html", Path2: "page.htm"}, fsOp{Kind: "rename", Path: "abcdefghi.txt", Path2: "ABCDEFGH.TXT"},
+		fsOp{Kind: "rename", Path: "a.b.c", Path2: "NOTES.TXT"})
+	for _, n := range []string{"page.html", "abcdefgh.txt", "ABCDEFGH.TXT", "a.b.c", "NOTES.TXT2"} {
+		ln2 = append(ln2, fsOp{Kind: "remove", Path: n})
+	}
+	ln2 = append(ln2, fsOp{Kind: "reopen"})
+	out = append(out, &fatScen{Name: "names2", Cfg: cfg, Letters: ln2, Depth: depth, Oracle: oracle})
 
 	// growshrink: offsets inside / at / past EOF x lengths around the cluster size, two files
 	var lg []fsOp
